@@ -536,6 +536,84 @@ static void sub_deflated() {
     }
 }
 
+//---------------------------------------------------------------------------
+// cpr_drs_rule: the dynamic-row-sum rule itself (cpr_drs.hpp / docs: eps_dd "severity of the violation of diagonal dominance",
+// eps_ps "pressure/saturation coupling", weights of [BrCC15]), evaluated densely with absent entries counting as 0:
+//   for cell ip (rows ik = ip b .. ik + b - 1, pressure = first unknown), equation i:
+//     a_dia = A(ik+i, ik)                                   coupling of equation i to the pressure of its own cell
+//     a_off = sum_{cp != ip} |A(ik+i, cp b)|                couplings of equation i to the pressures of the other (active) cells
+//     a_top = sum_{cp}       |A(ik,   cp b + i)|            couplings of the pressure equation to unknown i of all (active) cells
+//     delta_i = w_i (1 without weights);  for i > 0:  delta_i = 0  if  a_dia < eps_dd a_off  or  a_top < eps_ps |A(ik, ik)|
+//   Fpp(ip, ik+i) = delta_i,   App(ip, cp) = sum_i delta_i A(ik+i, cp b).
+// A decision whose two sides differ by less than 1e-12 relative (summation order of the library) is not judged.
+// The same object is built with 1, 4 and 8 OpenMP threads: weights, pressure matrix and action must be bitwise equal.
+//---------------------------------------------------------------------------
+static Res gen_reservoir_drs(Rng &r, int b, int nb, int tail, long &lacking) {
+    Res R; R.b = b; R.nb = nb; R.N = b * nb; R.n = R.N + tail; int n = R.n; R.A = LD::Zero(n, n); R.bpat.assign((size_t)nb * nb, 0);
+    int W = std::max(2, (int)std::sqrt((double)nb)); double pin = r.pick(std::vector<double>{0.35, 0.65, 0.9}), ppos = r.pick(std::vector<double>{0.6, 0.85, 1.0});
+    for (int i = 0; i < nb; ++i) for (int j = 0; j < nb; ++j) if (i == j || std::abs(i - j) == 1 || std::abs(i - j) == W || r.coin(1.5 / nb)) R.bpat[(size_t)i * nb + j] = 1;
+    lacking = 0;
+    for (int i = 0; i < R.N; ++i) for (int j = 0; j < R.N; ++j) { if (i == j || !R.bpat[(size_t)(i / b) * nb + j / b]) continue; bool diagblk = i / b == j / b;
+        if (diagblk && j % b == 0) { if (!r.coin(pin)) { ++lacking; continue; } double v = r.uni(0.05, 1.0); R.A(i, j) = r.coin(ppos) ? v : -v; continue; }      // in-cell pressure-column entry of a non-pressure equation
+        if (r.coin(diagblk ? 0.3 : 0.45)) continue; R.A(i, j) = r.uni(-1, 1) * (diagblk ? 0.6 : 0.4); }
+    for (int i = R.N; i < n; ++i) for (int j = 0; j < n; ++j) if (i != j && r.coin(0.1)) { R.A(i, j) = r.uni(-0.5, 0.5); if (r.coin(0.7)) R.A(j, i) = r.uni(-0.5, 0.5); }
+    for (int i = 0; i < n; ++i) { long double s = 0; for (int j = 0; j < n; ++j) if (j != i) s += fabsl(R.A(i, j)); R.A(i, i) = (double)((s + 0.3) * 1.3); }
+    return R;
+}
+static void sub_cpr_drs_rule() {
+    long N = vf::tier(64, 800); const int nt0 = omp_get_max_threads();
+    typedef preconditioner::cpr_drs<ExactPrec<50>, preconditioner::dummy<SB>> CPR;
+    for (long idx = 0; idx < N; ++idx) {
+        if (!sel("cpr_drs_rule", idx)) continue;
+        Rng r(vf::case_seed("cpr_drs_rule", idx)); int b = 2 + idx % 2 + (idx % 8 == 7), nb = (int)r.range(40, b == 2 ? 96 : 64); int tail = idx % 5 == 4 ? (int)r.range(1, 4) : 0; bool use_w = idx % 3 == 1;
+        long lacking = 0; Res R = gen_reservoir_drs(r, b, nb, tail, lacking); Crs C = crs_of(R.A); int n = R.n, active = tail ? R.N : (r.coin(0.3) ? R.N : 0);
+        double eps_dd = r.coin(0.15) ? 0.2 : r.logu(0.02, 3.0), eps_ps = r.coin(0.15) ? 0.02 : r.logu(0.005, 1.0);
+        std::vector<double> w(R.N); for (auto &x : w) x = r.uni(0.5, 2.0);
+        Case c("cpr_drs_rule", idx, J().n("b", b).n("nb", nb).n("tail", tail).n("active_rows", active).n("eps_dd", eps_dd).n("eps_ps", eps_ps).bl("weights", use_w).n("cells_eqs_lacking_own_pressure_entry", lacking).n("threads", nt0));
+        // dense reference of the rule
+        LD Fref = LD::Zero(nb, n); std::vector<char> judged((size_t)nb * b, 1); long dropped = 0, ambiguous = 0;
+        for (int ip = 0; ip < nb; ++ip) { int ik = ip * b; long double dia0 = R.A(ik, ik);
+            for (int i = 0; i < b; ++i) { long double delta = use_w ? (long double)w[ik + i] : 1.0L;
+                if (i > 0) { long double a_dia = R.A(ik + i, ik), a_off = 0, a_top = 0; for (int cp = 0; cp < nb; ++cp) { if (cp != ip) a_off += fabsl(R.A(ik + i, cp * b)); a_top += fabsl(R.A(ik, cp * b + i)); }
+                    long double d1 = a_dia - eps_dd * a_off, s1 = fabsl(a_dia) + eps_dd * a_off, d2 = a_top - eps_ps * fabsl(dia0), s2 = a_top + eps_ps * fabsl(dia0);
+                    if ((d1 != 0 && fabsl(d1) <= 1e-12L * s1) || (d2 != 0 && fabsl(d2) <= 1e-12L * s2)) { judged[ik + i] = 0; ++ambiguous; }
+                    if (d1 < 0 || d2 < 0) { delta = 0; ++dropped; } }
+                Fref(ip, ik + i) = delta; } }
+        LD Aref = LD::Zero(nb, nb), Aabs = LD::Zero(nb, nb); for (int ip = 0; ip < nb; ++ip) for (int cp = 0; cp < nb; ++cp) { long double sv = 0, sa = 0; for (int k = 0; k < b; ++k) { sv += Fref(ip, ip * b + k) * R.A(ip * b + k, cp * b); sa += fabsl(Fref(ip, ip * b + k) * R.A(ip * b + k, cp * b)); } Aref(ip, cp) = sv; Aabs(ip, cp) = sa; }
+        vf::obs_sum("drs_equations_dropped", (double)dropped); vf::obs_sum("drs_equations_lacking_own_pressure_entry", (double)lacking); vf::obs_sum("drs_decisions_not_judged", (double)ambiguous);
+        uint64_t dF[3] = {0, 0, 0}, dA[3] = {0, 0, 0}, dB[3] = {0, 0, 0}; static const int NT[3] = {1, 4, 8};
+        for (int t = 0; t < 3; ++t) {
+            omp_set_num_threads(NT[t]);
+            try {
+                CPR::params p; p.block_size = b; p.active_rows = active; p.eps_dd = eps_dd; p.eps_ps = eps_ps; if (use_w) p.weights = w;
+                CPR P(std::tie(C.n, C.ptr, C.col, C.val), p); std::shared_ptr<SM> rApp = rec<50>().last;
+                { auto &F = *ACC::Fpp(P); size_t used = F.ptr[F.nrows]; vf::Digest d; d.vec(F.ptr, F.nrows + 1); d.vec(F.val, used); d.vec(F.col, used); dF[t] = d.h; }    // only the entries addressed by ptr (with a tail the arrays are longer) { vf::Digest d; size_t ua = rApp->ptr[rApp->nrows]; d.vec(rApp->ptr, rApp->nrows + 1); d.vec(rApp->col, ua); d.vec(rApp->val, ua); dA[t] = d.h; }
+                LD B = cpr_action(P, n); dB[t] = dig(B);
+                if (t == 0 || NT[t] == nt0) {       // rule oracle at 1 thread and at the job's own thread count
+                    LD Fl = dense_of(*ACC::Fpp(P)), Ap = dense_of(*rApp); std::string why;
+                    if (!c.check(Fl.rows() == nb && Fl.cols() == n && Ap.rows() == nb && Ap.cols() == nb, "cpr_drs:rule:shapes", "unexpected shapes of Fpp / App")) continue;
+                    long bad = 0, first = -1; for (int ip = 0; ip < nb; ++ip) for (int j = 0; j < n; ++j) { bool own = j / b == ip && j < R.N; if (own && !judged[j]) continue; if (Fl(ip, j) != Fref(ip, j)) { if (!bad) first = (long)ip * n + j; ++bad; } }
+                    c.check(bad == 0, "cpr_drs:rule:weights", "Fpp differs from the dynamic-row-sum rule (absent entries count as 0)", J().n("entries_differing", bad).n("first_cell", first < 0 ? -1 : first / n).n("first_equation", first < 0 ? -1 : (first % n) % b).n("threads", NT[t]));
+                    c.check(app_pattern_ok(*rApp, R, C, why), "cpr_drs:rule:pressure-matrix:pattern", "pressure matrix: " + why);
+                    if (!ambiguous) { bool ok = true; for (int i = 0; i < nb; ++i) for (int j = 0; j < nb; ++j) if (!(fabsl(Ap(i, j) - Aref(i, j)) <= (b + 2) * EPS * Aabs(i, j) + 1e-300L)) ok = false;
+                        c.check(ok, "cpr_drs:rule:pressure-matrix:value", "pressure matrix is not sum_i delta_i A(ik+i, cp b) with the weights of the rule", J().n("threads", NT[t]));
+                        // action with identity global stage: B = I + Sc App^-1 Fpp (I - A); rounding: assembly of App ((b+2) eps |F||A|) through App^-1, plus the apply
+                        long double kA = cond_inf(Aref); if (kA < 1e8L) { LD Sc = LD::Zero(n, nb); for (int ip = 0; ip < nb; ++ip) Sc(ip * b, ip) = 1; LD Ari = Aref.partialPivLu().inverse();
+                            LD Bref = LD::Identity(n, n) + Sc * Ari * Fref * (LD::Identity(n, n) - R.A); long double Ai = ninf(Ari), base = Ai * ninf(Fref) * (1 + ninf(R.A));
+                            long double tol = 4 * (Ai * (b + 2) * EPS * ninf(Aabs) * base + 32 * (n + 1) * EPS * (1 + base) + 8 * nb * EPS * kA * base);
+                            c.check_le((double)nmax(B - Bref), (double)tol, "cpr_drs:rule:action", "apply() is not f + Scatter App^-1 Fpp (f - A f) with the weights of the rule"); vf::obs_sum("drs_actions_checked"); } }
+                }
+            } catch (const std::exception &e) { c.fail("cpr_drs:rule:exception", std::string(e.what()) + " (threads " + std::to_string(NT[t]) + ")"); }
+        }
+        omp_set_num_threads(nt0);
+        c.check(dF[0] == dF[1] && dF[0] == dF[2], "cpr_drs:thread-count:weights", "DRS weights (Fpp) differ between builds with 1, 4 and 8 threads", J().bl("t4_equal", dF[0] == dF[1]).bl("t8_equal", dF[0] == dF[2]));
+        c.check(dA[0] == dA[1] && dA[0] == dA[2], "cpr_drs:thread-count:pressure-matrix", "pressure matrix differs between builds with 1, 4 and 8 threads");
+        c.check(dB[0] == dB[1] && dB[0] == dB[2], "cpr_drs:thread-count:action", "action differs between builds with 1, 4 and 8 threads");
+        if (lacking) c.nontrivial(); vf::obs_add("drs_rule_threads", "1,4,8");
+        vf::sample("cpr_drs_rule", J().n("b", b).n("nb", nb).n("eps_dd", eps_dd).n("eps_ps", eps_ps).n("lacking", lacking).n("dropped", dropped));
+    }
+}
+
 int main(int argc, char **argv) {
     vf::init(argc, argv); STRIDE = vf::opt_int("stride", 1);
     if (vf::sub_enabled("schur_exact")) sub_schur_exact();
@@ -545,6 +623,7 @@ int main(int argc, char **argv) {
     if (vf::sub_enabled("cpr_drs")) sub_cpr_drs();
     if (vf::sub_enabled("cpr_active_block")) sub_cpr_active_block();
     if (vf::sub_enabled("deflated")) sub_deflated();
+    if (vf::sub_enabled("cpr_drs_rule")) sub_cpr_drs_rule();      // last: it changes the OpenMP thread count (the fork-isolated checks above need a process without a thread pool)
     vf::obs_add("threads_seen", std::to_string(omp_get_max_threads()));
     return vf::finish();
 }
